@@ -130,6 +130,27 @@ def run_part(prop, seed, budget):
             n += 1; distinct.add(case_hash("c7-pep604", k)); hist["pep604-unions-under-a-dynamic-conversion"] += 1
             r = _out(fn)
             if r != want: _fail(failures, "pep604-unions", "dynamic-conversion-does-not-reach-through-a-pep604-union", case=k, got=r, expected=want)
+    if prop == "C08":
+        # settings.deserialization.override_dataclass_constructors on classes it cannot build field by field: same values with the setting on and off
+        from apischema import settings, deserialization_method
+        src = ["from dataclasses import dataclass, field", "", "@dataclass", f"class SlA{i}:", "    __slots__ = ('x',)", "    x: int", "", "@dataclass", f"class SlB{i}(SlA{i}):", "    y: int = 0", "",
+               "@dataclass(init=False)", f"class Hw{i}:", "    a: int", "    b: int", "    def __init__(self, a, b): self.a = a * 2; self.b = b", "",
+               "@dataclass", f"class Qf{i}:", "    x: int = 0", "", f"class Qp{i}(Qf{i}):", "    @property", "    def x(self): return self._x", "    @x.setter", "    def x(self, v): self._x = v + 100", "",
+               "@dataclass", f"class Pb{i}:", "    n: str = ''", "    def __post_init__(self): self.n = self.n.strip()", "", "@dataclass", f"class Pc{i}(Pb{i}):", "    r: int = 0", ""]
+        g = vars(build_module(src, f"corners7oc_{seed}"))
+        cases = [(f"SlB{i}", {"x": 1}, ["x", "y"]), (f"Hw{i}", {"a": 1, "b": 2}, ["a", "b"]), (f"Qp{i}", {"x": 1}, ["x"]), (f"Pc{i}", {"n": "  a ", "r": 1}, ["n", "r"])]
+        prev = settings.deserialization.override_dataclass_constructors
+        try:
+            for cname, d, attrs in cases:
+                res = {}
+                for ov in (False, True):
+                    settings.deserialization.override_dataclass_constructors = ov
+                    res[ov] = _out(lambda: (lambda v: {a: getattr(v, a) for a in attrs})(deserialize(g[cname], dict(d))))
+                    res[(ov, "method")] = _out(lambda: (lambda v: {a: getattr(v, a) for a in attrs})(deserialization_method(g[cname])(dict(d))))
+                n += 1; distinct.add(case_hash("c7-override", cname)); hist["override-constructors-on-corner-classes"] += 1
+                if len({repr(v) for v in res.values()}) != 1: _fail(failures, "override-constructors", "result-depends-on-override_dataclass_constructors", cls=cname, datum=d, results={str(k): repr(v) for k, v in res.items()})
+        finally:
+            settings.deserialization.override_dataclass_constructors = prev
     if prop == "C12":
         # object_serialization of a generic class: the view serializes the selected fields and properties of a specialised value
         from apischema.objects import object_serialization
